@@ -43,6 +43,10 @@ def make_command(key, n):
         "st16": lambda: gg.QueryStatus(A.GearShort(a)),
         "cfg": lambda: gg.SetMaxLevel(A.GearShort(a)),
         "dtr": lambda: gg.DTR0(n % 256),
+        # the search-address commands (special commands 0xB1 / 0xB3 / 0xB5: the ATX hat driver has an arm of its own for them)
+        "sah": lambda: gg.SearchaddrH(n % 256),
+        "sam": lambda: gg.SearchaddrM(n % 256),
+        "sal": lambda: gg.SearchaddrL(n % 256),
         # ENABLE DEVICE TYPE sent by the application itself (a command like any other: device type 0)
         "edt6": lambda: gg.EnableDeviceType(6),
         "edt1": lambda: gg.EnableDeviceType(1),
